@@ -613,13 +613,13 @@ func (c *registration) setDelegate(m metric.Meter) {
 
 func (c *registration) Unregister() error {
 	c.unregMu.Lock()
-	defer c.unregMu.Unlock()
-	if c.unreg == nil {
-		// Unregister already called.
+	unreg := c.unreg
+	c.unreg = nil
+	// Do not hold the lock while calling unreg: before delegation it acquires
+	// the meter lock, which is held by setDelegate while it waits for unregMu.
+	c.unregMu.Unlock()
+	if unreg == nil {
 		return nil
 	}
-
-	var err error
-	err, c.unreg = c.unreg(), nil
-	return err
+	return unreg()
 }
